@@ -194,6 +194,9 @@ func takenFrom(doc, path string) interface{} {
 }
 
 func genC18(cw *caseWriter, seed uint64, tier string) {
+	// a slice of the template / row histories (refused imports included) under this property's name: declared columns keep
+	// their declarations (harness/alias.go)
+	genAliasHistories(cw, "C18", newRng(seed+1854), 60)
 	r := newRng(seed)
 	docs := pathDocs()
 	// all paths up to 2 segments over the key alphabet (thorough: 3), plus hand-picked deep ones
